@@ -270,7 +270,11 @@ impl<'r, L: Language> Node<'r, StrDoc<L>> {
     let mut lines_after = after + 1;
     // tree-sitter will append line ending to source so trailing can be out of bound
     trailing = trailing.min(bytes.len());
-    while trailing < bytes.len() {
+    // a match that ends with a line break has no rest of the line after it
+    if trailing > start && bytes[trailing - 1] == b'\n' {
+      lines_after -= 1;
+    }
+    while lines_after > 0 && trailing < bytes.len() {
       if bytes[trailing] == b'\n' {
         lines_after -= 1;
         if lines_after == 0 {
